@@ -15,7 +15,7 @@ NVT = 8
 sym_mods = common.sym_mods
 
 
-def _wrap(h):
+def _wrap(h, NVT=NVT):
     def run(env, **cfg):
         from ..llsym import bridge, omp
         if not env.sym:
@@ -65,6 +65,8 @@ def _make():
         "contract_rad_orb": (_wrap(c05.h_rad_orb), dict(nalpha=2, stride=3, offset=1), "dft"),
         "project_spline": (_wrap(c05.h_project_spline), {}, "dft"),
         "fill_l1_coeff": (_wrap(c05.h_fill_l1), {}, "dft"),
+        "orb2grid_LCAOInterpolator": (_wrap(c05.h_orb2grid, 12), {}, "dft"),
+        "orb2grid_LCAOInterpolatorDirect": (_wrap(c05.h_direct, 12), {}, "dft"),
         "multiply_atc_integrals": (_wrap(c05.h_atc_integrals), dict(vk=False), "dft"),
         "multiply_atc_integrals_vk": (_wrap(c05.h_atc_integrals), dict(vk=True), "dft"),
         "fft_copies_r2c_inplace": (_wrap(c20.h_fft), dict(dims=(2, 3), nt=2, fwd=True, r2c=True, inplace=True, bf=False), "fft"),
